@@ -26,7 +26,7 @@ if $APPLIES; then
   git -C /repo apply "$DIFF"
   RES="{"
   for P in "$@"; do
-    /verif/run $P quick > /dev/shm/seed_check_$P.log 2>&1; RC=$?
+    timeout 1500 /verif/run $P quick > /dev/shm/seed_check_$P.log 2>&1; RC=$?
     NV=$(grep -c "^VIOLATION" /dev/shm/seed_check_$P.log)
     echo "check $P: exit=$RC violations=$NV"; grep -A1 "^VIOLATION" /dev/shm/seed_check_$P.log | grep signature | head -5
     RES="$RES\"$P\": {\"exit\": $RC, \"violation_lines\": $NV},"
